@@ -65,13 +65,15 @@ def find_assign(fn, name):
         raise Untranslatable(f"{fn.name}: expected exactly one assignment to {name}, found {len(vals)}")
     return vals[0]
 
-def straightline(fn, allowed_ifs):
+def straightline(fn, allowed_ifs, allowed_ifexps=0):
     """the function body may contain only the coercion `if`s we know, assignments, returns, docstrings/comments"""
     n_if = sum(isinstance(st, ast.If) for st in ast.walk(fn))
     if n_if > allowed_ifs:
         raise Untranslatable(f"{fn.name}: {n_if} if-statements (expected at most {allowed_ifs}): control flow outside the subset")
+    if sum(isinstance(st, ast.IfExp) for st in ast.walk(fn)) > allowed_ifexps:
+        raise Untranslatable(f"{fn.name}: IfExp outside the subset")
     for st in ast.walk(fn):
-        if isinstance(st, (ast.For, ast.While, ast.Try, ast.With, ast.Lambda, ast.IfExp)):
+        if isinstance(st, (ast.For, ast.While, ast.Try, ast.With, ast.Lambda)):
             raise Untranslatable(f"{fn.name}: {type(st).__name__} outside the subset")
 
 def translate(path=SRC):
@@ -108,13 +110,25 @@ def translate(path=SRC):
         this_s, other_s = targ.tr(call.args[0]), targ.tr(call.args[2])
         out[key] = Tr({"this_sensitivity": this_s, "other_sensitivity": other_s}).tr(jbody)
     # __pow__
-    f = fns["__pow__"]; straightline(f, 2)
+    f = fns["__pow__"]; straightline(f, 2, allowed_ifexps=1)     # the one conditional expression allowed is the slope (checked below)
     if ast.unparse(find_assign(f, "measurand")) != "self.measurand ** exponent":
         raise Untranslatable("__pow__: measurand is " + ast.unparse(find_assign(f, "measurand")))
     zero = [st for st in f.body if isinstance(st, ast.If) and ast.unparse(st.test) == "exponent == 0"]
     if len(zero) != 1 or ast.unparse(zero[0].body[0]) != "return Measurement(measurand, 0)":
         raise Untranslatable("__pow__: the exponent == 0 case is not `return Measurement(measurand, 0)`")
-    out["pow"] = Tr({"exponent": ("int", "n")}).tr(sqrt_arg(find_assign(f, "uncertainty"))).replace("(RConst n)", "(RConst n)")
+    # slope = 1 if exponent == 1 else _pow(x, exponent - 1): the first branch is x**0 written out (a Decimal zero refuses 0**0);
+    # in the model x**0 is 1 for every x (powerRZ), so the slope is the translated second branch for every exponent
+    env = {"exponent": ("int", "n")}
+    try:
+        slope = find_assign(f, "slope")
+    except Untranslatable:
+        slope = None
+    if slope is not None:
+        if not (isinstance(slope, ast.IfExp) and ast.unparse(slope.test) == "exponent == 1" and ast.unparse(slope.body) == "1"
+                and ast.unparse(slope.orelse) == "_pow(self.measurand.magnitude, exponent - 1)"):
+            raise Untranslatable("__pow__: slope is " + ast.unparse(slope))
+        env["slope"] = Tr({"exponent": ("int", "n")}).tr(slope.orelse)
+    out["pow"] = Tr(env).tr(sqrt_arg(find_assign(f, "uncertainty")))
     # `exponent` used as a number (not as an exponent) appears as a Name: map it
     return out
 
